@@ -397,57 +397,4 @@ def validate (sentinel : Option Bytes) (steps : List (Req × Rec)) : Except Stri
           | .error _ => .error "decode-error"
     else .ok r
 
-/-! ### the lenient verdict of the stream
-
-An invalid back-reference inside an addition that is undone later leaves no trace in the final bytes,
-so the implementation side (which only decodes the final bytes) cannot see it.  For the *reply* of the
-stream such a step is followed with the unchecked policy and remembered; the verdict is `invalid` iff
-a remembered addition is still retained at the end.  (`validate` above stays the strict check that
-the theorems are about; as long as no step is remembered both perform the same steps.)  No theorem
-mentions `validateLenient`. -/
-
-structure LRun where
-  r : Run
-  /-- positions (0-based) of retained additions that contain an invalid back-reference -/
-  taints : List Nat
-
-def lenientStep (l : LRun) (req : Req) (rec : Rec) : Except String LRun :=
-  match validateStep l.r req rec with
-  | .ok r' =>
-    match req with
-    | .undo k => .ok { r := r', taints := l.taints.filter (· < k - 1) }
-    | .add _ => .ok { r := r', taints := l.taints }
-  | .error e =>
-    if e == "invalid-backref" then
-      match req, rec with
-      | .add t, .added _ out =>
-        match l.r.step (.add (replay out) t) with
-        | .ok r'' => .ok { r := r'', taints := l.r.trees.length :: l.taints }
-        | .error _ => .error e
-      | _, _ => .error e
-    else .error e
-
-def lenientSteps (l : LRun) : List (Req × Rec) → Except String LRun
-  | [] => .ok l
-  | (q, c) :: rest =>
-    match lenientStep l q c with
-    | .error e => .error e
-    | .ok l' => lenientSteps l' rest
-
-def validateLenient (sentinel : Option Bytes) (steps : List (Req × Rec)) : Except String Run :=
-  match lenientSteps { r := Run.new sentinel, taints := [] } steps with
-  | .error e => .error e
-  | .ok l =>
-    if !l.taints.isEmpty then .error "invalid-backref"
-    else if l.r.done then
-      match assemble sentinel l.r.trees with
-      | none => .error "no-assembled-tree"
-      | some want =>
-        if !noSentinel sentinel want then .error "sentinel-left"
-        else
-          match Backref.deBrNew l.r.s.output.buf [.sexp] [] Backref.Ctr.default with
-          | .ok (t, rest, _) => if t == want && rest.isEmpty then .ok l.r else .error "decodes-to-other-tree"
-          | .error _ => .error "decode-error"
-    else .ok l.r
-
 end Clvm.Serde.Incremental
